@@ -176,3 +176,72 @@ Proof.
     assert (E : set_all Z Z Z.eqb zt_hash table_swap t0 [(7%Z, 1%Z); (3%Z, 2%Z)] <> None) by congruence.
     revert Hs. vm_compute. intros Hs. injection Hs as <-. reflexivity.
 Qed.
+
+(* ------------------------------------------------------------------ both levels together, Int keys *)
+(* A Table keyed by Int whose slot array satisfies the invariant, seen as a value: its bindings in
+   iteration order.  copy(t) (= Table_Assign into fresh storage) is eq to t in both directions and
+   hashes the same, whatever the hash function placing the keys and whatever the history that led
+   to the state. *)
+From CelloV Require Import HashModel HashProofs.
+
+Definition emb (t : table Z value) : list (value * value) :=
+  map (fun kv => (VInt (fst kv), snd kv)) (t_iter Z value t).
+
+Section IntTable.
+  Variables (m r seed : N).
+  Variable hash : Z -> N.
+
+  Definition entries_wf (t : table Z value) : Prop :=
+    forall k v, In (k, v) (t_iter Z value t) -> v_wf (VInt k) = true /\ v_wf v = true.
+
+  Lemma emb_wf (t : table Z value) : tinv Z value hash t -> entries_wf t -> v_wf (VMap KTable (emb t)) = true.
+  Proof.
+    intros [[_ [_ U]] _] W. cbn [v_wf]. apply andb_true_iff. split.
+    - apply forallb_forall. intros [k v] I. unfold emb in I. apply in_map_iff in I.
+      destruct I as [[k0 v0] [E I]]. simpl in E. injection E as <- <-.
+      destruct (W _ _ I) as [W1 W2]. simpl. change (v_wf (VInt k0) && v_wf v0 = true). rewrite W1, W2. reflexivity.
+    - apply nodup_keys_distinct.
+      + unfold keysok, emb. apply Forall_forall. intros kv I. apply in_map_iff in I.
+        destruct I as [[k0 v0] [<- _]]. reflexivity.
+      + unfold keys, emb. rewrite map_map. simpl.
+        pose proof (entries_nodup Z value _ U) as ND. unfold t_iter.
+        rewrite <- (map_map fst VInt). apply FinFun.Injective_map_NoDup; [|exact ND].
+        intros x y E. injection E. auto.
+  Qed.
+
+  Theorem int_table_copy_eq_hash (t : table Z value) :
+    tinv Z value hash t -> entries_wf t ->
+    exists t', t_assign_from Z value Z.eqb hash table_swap table_primes table_load_num table_load_den t = Some t' /\
+      v_cmp true (VMap KTable (emb t')) (VMap KTable (emb t)) = Some 0%Z /\
+      v_cmp true (VMap KTable (emb t)) (VMap KTable (emb t')) = Some 0%Z /\
+      v_hash m r seed true (VMap KTable (emb t')) = v_hash m r seed true (VMap KTable (emb t)) /\
+      length (emb t') = length (emb t).
+  Proof.
+    intros Hi W.
+    destruct (table_copy_same_bindings Z value Z.eqb hash t Z.eqb_eq Hi) as [t' [Ha [Hi' [P Hn]]]].
+    exists t'. split; [exact Ha|].
+    assert (Pe : Permutation (emb t) (emb t')) by (unfold emb; apply Permutation_map; apply Permutation_sym; exact P).
+    pose proof (emb_wf t Hi W) as Wt.
+    destruct (map_perm_eq m r seed true KTable KTable (emb t) (emb t') eq_refl Wt Pe) as [Wt' [C1 H1]].
+    destruct (map_perm_eq m r seed true KTable KTable (emb t') (emb t) eq_refl Wt' (Permutation_sym Pe)) as [_ [C2 _]].
+    split; [exact C2|]. split; [exact C1|]. split; [symmetry; exact H1|].
+    apply Permutation_length. apply Permutation_sym. exact Pe.
+  Qed.
+End IntTable.
+
+Lemma int_table_nonvacuous :
+  exists t : table Z value, tinv Z value zt_hash t /\ entries_wf t /\
+    emb t = [(VInt 3, VSeq KList [VFloat 0]); (VInt 7, VStr [72; 105]%N)].
+Proof.
+  set (kvs := [(7%Z, VStr [72; 105]%N); (3%Z, VSeq KList [VFloat 0])]).
+  set (t0 := mkT Z value (repeat None 11) 0).
+  destruct (set_all_spec Z value Z.eqb zt_hash table_swap Z.eqb_eq table_swap_le table_swap_ge kvs t0)
+    as [t' [Hs [Hi _]]].
+  - split; [apply core_repeat|]. simpl. symmetry. apply (occupied_repeat (Z * value) 11).
+  - simpl. repeat constructor; simpl; intuition discriminate.
+  - intros x _. apply Absent_repeat.
+  - vm_compute. lia.
+  - exists t'. split; [exact Hi|].
+    vm_compute in Hs. injection Hs as <-. split; [|reflexivity].
+    intros k v I. vm_compute in I. destruct I as [E|[E|[]]]; injection E as <- <-; split; vm_compute; reflexivity.
+Qed.
